@@ -189,7 +189,7 @@ func TestC02(t *testing.T) {
 		variant := ev.ShardNo()*runs + run
 		u := newCDP(t, cdpOpts{variant: variant})
 		rnd := rng("C02", run)
-		cfg := cdpCfg{priceMoves: run%2 == 1, bids: run%2 == 1, lockers: false, unsolicited: false, liquidateMsg: run%2 == 1, reserve: run%2 == 1}
+		cfg := cdpCfg{priceMoves: run%2 == 1, bids: run%2 == 1, lockers: false, unsolicited: false, liquidateMsg: run%2 == 1, reserve: run%2 == 1, govChanges: variant%3 == 0}
 		r := newCdpRunner(u, rnd, rec, cfg, newC02Mon(u, rec))
 		r.run(cdpSteps())
 		// emergency shutdown of one app at the end of every second run
